@@ -8,7 +8,7 @@ import time
 from . import build as B
 
 VERIF = B.VERIF
-BUILD_DIR = os.path.join(VERIF, 'build')
+BUILD_DIR = os.environ.get('VERIF_BUILD', os.path.join(VERIF, 'build'))   # VERIF_BUILD: a scratch output directory for development runs
 
 OBLIGATION_PATTERNS = [
     (re.compile(r'^postcondition not satisfied'), 'postcondition'),
